@@ -403,12 +403,18 @@ def sweep(ctx, reps):
         w.check(prs.part.package, "<open>", "ok", [])
         world = oplab.discover(prs)
         history = []
-        for p in table:
+        shuffled = list(table)
+        rng.shuffle(shuffled)
+        # three passes so that every PAIR of properties of one object is assigned in both orders (a setter that is right
+        # on a fresh element may be wrong after its sibling has been set): table order with every value class, then
+        # reverse and shuffled order with in-domain values
+        passes = [(p, ("bad", "in", "none", "bad")) for p in table] + [(p, ("in",)) for p in reversed(table)] + [(p, ("in", "in")) for p in shuffled]
+        for p, classes in passes:
             objs = world.objs.get(p.kind, [])
             if not objs:
                 ctx.count("sweep-no-object:" + p.kind)
                 continue
-            for cls in ("bad", "in", "none", "bad"):
+            for cls in classes:
                 if cls == "none" and not p.none_ok:
                     continue
                 obj, path = rng.choice(objs)
